@@ -519,6 +519,89 @@ func c35Offenders(c *Ctx, f *ssa.Function, key string) {
 		}
 	})
 	c.Check(hasPrior, "C35.sets", key+" · grows", f.Pos(), "every prior offender is carried into ψ_o'", "prior offenders are not carried into the new list")
+	// the keys may come combined from a function of (culprits, faults) that lists every culprit key and every fault key
+	if apps["culprit"] == nil && apps["fault"] == nil {
+		var comb *c35site
+		var src *ssa.Call
+		visitWithHelpers(f, o, func(g *ssa.Function, subst map[ssa.Value]string, in ssa.Instruction) {
+			call, ok := in.(*ssa.Call)
+			if !ok {
+				return
+			}
+			if b, isB := call.Call.Value.(*ssa.Builtin); !isB || b.Name() != "append" {
+				return
+			}
+			es := appendedElems(call.Call.Args[1])
+			if len(es) != 1 {
+				return
+			}
+			// element = X[*] with X the result of a call taking (culprits, faults)
+			ld, ok := stripConv(es[0]).(*ssa.UnOp)
+			if !ok {
+				return
+			}
+			ia, ok := ld.X.(*ssa.IndexAddr)
+			if !ok {
+				return
+			}
+			sc, ok := stripConv(ia.X).(*ssa.Call)
+			if !ok || sc.Call.StaticCallee() == nil {
+				return
+			}
+			comb, src = &c35site{in, g, subst}, sc
+		})
+		okSrc := false
+		srcDesc := ""
+		if src != nil {
+			h := src.Call.StaticCallee()
+			var as []string
+			for _, a := range src.Call.Args {
+				as = append(as, abbr(exprStr(a, o)))
+			}
+			srcDesc = relName(h.String()) + "(" + strings.Join(as, ", ") + ")"
+			np := len(h.Params)
+			if np >= 2 && len(as) == np && as[np-2] == "p1" && as[np-1] == "p2" {
+				// every element of both inputs contributes its Key, nothing else
+				var els []string
+				allInstrs(h, func(in ssa.Instruction) {
+					if call, ok := in.(*ssa.Call); ok {
+						if b, isB := call.Call.Value.(*ssa.Builtin); isB && b.Name() == "append" {
+							els = append(els, abbr(exprStr(call.Call.Args[1], o)))
+						}
+					}
+				})
+				cp, fp := fmt.Sprintf("[p%d[*].Key][:]", np-2), fmt.Sprintf("[p%d[*].Key][:]", np-1)
+				okSrc = len(els) == 2 && contains(els, cp) && contains(els, fp) && len(condAtoms(h, o)) <= 2 && returnsItsAppends(h)
+			}
+		}
+		if comb != nil && okSrc {
+			call := comb.in.(*ssa.Call)
+			bad := ""
+			for m := int64(0); m <= 1 && bad == ""; m++ {
+				reached, ok := iterReaches(call, o, comb.subst, func(r string) (int64, bool) {
+					if strings.HasPrefix(r, "makemap[") && (strings.HasSuffix(r, "[*]]") || strings.HasSuffix(r, "[*]]#1")) {
+						return m, true
+					}
+					return 0, false
+				})
+				if !ok {
+					bad = "the decision to add a key depends on something other than its membership in the offender set"
+				} else if reached != (m == 0) {
+					bad = fmt.Sprintf("a key with already-present=%d is added=%v", m, reached)
+				}
+			}
+			marked := false
+			for k := range marks {
+				if strings.HasSuffix(k, "[*]") && strings.Contains(k, "(") {
+					marked = true
+				}
+			}
+			c.Check(bad == "" && marked, "C35.sets", key+" · culprit keys", call.Pos(), "culprit and fault keys (taken together from "+srcDesc+") are added exactly when not yet offenders, and then marked", "offender keys: "+bad)
+			c.OK("C35.sets", key+" · fault keys", call.Pos(), "covered by the combined key list "+srcDesc)
+			apps["culprit"], apps["fault"] = nil, nil
+			goto sorted
+		}
+	}
 	for _, kind := range []string{"culprit", "fault"} {
 		pk := map[string]string{"culprit": "p1[*].Key", "fault": "p2[*].Key"}[kind]
 		s := apps[kind]
@@ -549,6 +632,7 @@ func c35Offenders(c *Ctx, f *ssa.Function, key string) {
 		}
 		c.Check(bad == "" && (marks[pk] || marks["p0"]), "C35.sets", key+" · "+kind+" keys", call.Pos(), "a "+kind+" key is added exactly when not yet an offender, and then marked", kind+" keys: "+bad)
 	}
+sorted:
 	if sortCall == nil {
 		c.Bad("C35.sets", key+" · sorted", f.Pos(), "offenders are stored unsorted")
 	} else {
